@@ -1,4 +1,4 @@
-import TxV.Core.Example
+import TxV.Core.Example2
 /-!
 # C05 — call arguments and results are routed to the right party
 
@@ -19,7 +19,7 @@ namespace TxV.Core
 
 variable {D : Design} {v : Val} {S : Sched} {run : Nat → Bool}
 
--- OBLIGATION c05_exclusive : sentence 1 (under driver-checked hypotheses Accepted, Cycle, SitesNodup): whenever an exclusive method of an accepted design runs (any scheduler satisfying the cycle facts) it has exactly one active call site and the default combiner delivers exactly that site's argument — for any number of call sites
+-- OBLIGATION c05_exclusive : sentence 1 (under hypothesis Accepted (proved from the executable elaborate: Bridge.elaborate_static) and driver-checked per-cycle hypotheses Cycle, SitesNodup): whenever an exclusive method of an accepted design runs (any scheduler satisfying the cycle facts) it has exactly one active call site and the default combiner delivers exactly that site's argument — for any number of call sites
 theorem c05_exclusive (hA : Accepted D S) (hC : Cycle D v S run) (hn : D.SitesNodup) {m : Nat}
     (hlt : m < D.n) (hmt : D.isTrans m = false) (hne : D.nonexcl m = false) (hr : run m = true) :
     ∃ s, activeSites D v run m = [s] ∧ dataIn defaultCombiner D v run m = v.arg s.2.site :=
